@@ -337,6 +337,12 @@ def coq_eval(pid, imports, shards, timeout=900):
         with open(os.path.join(wdir, name + '.v'), 'w') as fil:
             fil.write(imports + '\n' + body + '\n')
         names.append(name)
+        keep = os.environ.get('VERIF_KEEP_CASES')
+        if keep:      # harness/tools/modelmut.py re-evaluates the same cases against mutated models
+            os.makedirs(keep, exist_ok=True)
+            n = len([x for x in os.listdir(keep) if x.endswith('.v')])
+            with open(os.path.join(keep, f'kept_{pid}_{n}.v'), 'w') as fil:
+                fil.write(imports + '\n' + body + '\n')
     procs = []
     outs = [None] * len(names)
     pending = list(enumerate(names))
